@@ -19,7 +19,7 @@ from __future__ import annotations
 
 import ast
 
-from ..model import Program, dotted, kwarg, const, walk_no_nested
+from ..model import AnalysisError, Program, dotted, kwarg, const, walk_no_nested
 from ..report import Result
 from .. import rows as R
 from . import ix_common as I
@@ -164,13 +164,58 @@ def gen_sparse(prog: Program, res: Result) -> None:
         res.bad("GEN-fill", fi2.short, desc, prog.loc(fi2, call), f"generator is {ast.unparse(call)[:80]}")
 
 
+def _stride_idiom(fn: ast.AST):
+    """Diagonal by linear index: positions k * sum(strides).  With the first subscript fastest (the library's numbering) the strides of a
+    shape s are cumprod((1,) + s[:-1]); built from any other slice of the shape they address other entries for non-cubical shapes.
+    Returns (ok, message, node) or None when no cumprod-of-shape idiom is present."""
+    for c in ast.walk(fn):
+        if isinstance(c, ast.Call) and (dotted(c.func) or "").split(".")[-1] == "cumprod" and c.args:
+            a = c.args[0]
+            parts = []
+            if isinstance(a, ast.BinOp) and isinstance(a.op, ast.Add):
+                parts = [a.left, a.right]
+            elif isinstance(a, ast.Call) and (dotted(a.func) or "").split(".")[-1] in ("concatenate", "hstack", "append") and a.args:
+                inner = a.args[0]
+                parts = list(inner.elts) if isinstance(inner, (ast.Tuple, ast.List)) else list(a.args)
+            if len(parts) != 2:
+                continue
+            one, sl = parts
+            if isinstance(one, ast.Call) and one.args:
+                one = one.args[0]
+            if isinstance(sl, ast.Call) and sl.args:
+                sl = sl.args[0]
+            is_one = isinstance(one, (ast.Tuple, ast.List)) and len(one.elts) == 1 and const(one.elts[0]) == 1
+            if not (is_one and isinstance(sl, ast.Subscript) and isinstance(sl.slice, ast.Slice)):
+                continue
+            lo, hi, st = sl.slice.lower, sl.slice.upper, sl.slice.step
+            if lo is None and st is None and hi is not None and const(hi) == -1:
+                return True, "", c
+            return False, (f"strides are built from `{ast.unparse(sl)}`: the first-subscript-fastest strides of a shape are cumprod((1,) + shape[:-1]); "
+                           "with another slice the positions leave the diagonal for every non-cubical shape"), c
+    return None
+
+
+STRIDE_FIXTURE = ("def f(N, shape):\n    X = zeros(shape)\n    X[np.arange(0, N) * int(np.sum(np.cumprod((1,) + shape[1:])))] = 1\n    return X\n",
+                  "def f(N, shape):\n    X = zeros(shape)\n    X[np.arange(0, N) * int(np.sum(np.cumprod((1,) + shape[:-1])))] = 1\n    return X\n")
+
+
 def diag(prog: Program, res: Result) -> None:
+    bad_fx = _stride_idiom(ast.parse(STRIDE_FIXTURE[0]))
+    ok_fx = _stride_idiom(ast.parse(STRIDE_FIXTURE[1]))
+    if not (bad_fx and bad_fx[0] is False and ok_fx and ok_fx[0] is True):
+        raise AnalysisError("DIAG stride idiom fixtures not recognised")
     for short in ("sptensor.sptendiag", "tensor.tendiag"):
         fi = prog.func(short)
         tile = [c for c in ast.walk(fi.node) if isinstance(c, ast.Call) and (dotted(c.func) or "").split(".")[-1] == "tile"]
         desc = "one diagonal subscript column per mode of the constructed shape"
         if not tile:
-            res.undecided("DIAG", short, desc, prog.loc(fi))
+            v = _stride_idiom(fi.node)
+            if v is None:
+                res.undecided("DIAG", short, desc, prog.loc(fi))
+            elif v[0]:
+                res.ok("DIAG", short, desc, prog.loc(fi, v[2]), "linear indices k * sum(F-order strides)")
+            else:
+                res.bad("DIAG", short, desc, prog.loc(fi, v[2]), v[1])
         else:
             reps = ast.unparse(tile[0].args[1]) if len(tile[0].args) > 1 else ""
             src = ast.unparse(tile[0].args[0]) if tile[0].args else ""
